@@ -2416,7 +2416,8 @@ impl LuaGenerator for TokenBasedLuaGenerator<'_> {
         if let Some(token) = string.get_token() {
             self.write_token(token);
         } else {
-            self.write_symbol(&utils::write_string(string.get_value()));
+            // a generated string must not add lines to the output
+            self.write_symbol(&utils::write_single_line_string(string.get_value()));
         }
     }
 
@@ -2568,7 +2569,7 @@ impl LuaGenerator for TokenBasedLuaGenerator<'_> {
         if let Some(token) = string_type.get_token() {
             self.write_token(token);
         } else {
-            self.write_symbol(&utils::write_string(string_type.get_value()));
+            self.write_symbol(&utils::write_single_line_string(string_type.get_value()));
         }
     }
 
